@@ -120,7 +120,10 @@ func RoundTrip(v interface{}) proj.M {
 	return ev
 }
 
-// RoundTripWith is RoundTrip with caller-supplied maps.
+var rtCount int
+
+// RoundTripWith is RoundTrip with caller-supplied maps.  The decode entry point rotates:
+// ToObject, a Decoder over a reader that delivers a few octets per Read, a Serializer.
 func RoundTripWith(v interface{}, typMap map[string]reflect.Type, nameMap map[string]string) proj.M {
 	ev := proj.M{"ev": "rt", "xpanic": 0}
 	P := proj.New(nameMap)
@@ -139,7 +142,21 @@ func RoundTripWith(v interface{}, typMap map[string]reflect.Type, nameMap map[st
 	}
 	ev["dskip"] = 0
 	var r interface{}
-	msg, p = Call(func() { r, err = hessian.ToObject(out, typMap) })
+	rtCount++
+	via := "ToObject"
+	msg, p = Call(func() {
+		switch rtCount % 4 {
+		case 1: // a source that delivers one to three octets at a time
+			via = "Decoder.ReadFrom(choppy)"
+			r, err = hessian.NewDecoder(nil, typMap).ReadFrom(&ChoppyReader{B: out, Max: 1 + rtCount%3})
+		case 3:
+			via = "Serializer.ToObject"
+			r, err = hessian.NewSerializer(typMap, nameMap).ToObject(out)
+		default:
+			r, err = hessian.ToObject(out, typMap)
+		}
+	})
+	ev["via"] = via
 	ev["dpanic"] = b2i(p)
 	ev["derr"] = b2i(err != nil)
 	ev["dmsg"] = errStr(err) + ascii(msg)
@@ -179,6 +196,36 @@ func (r *CountingReader) Read(p []byte) (int, error) {
 }
 
 func (r *CountingReader) ReadRune() (rune, int, error) {
+	if r.Pos >= len(r.B) {
+		return 0, 0, io.EOF
+	}
+	c, sz := utf8.DecodeRune(r.B[r.Pos:])
+	r.Pos += sz
+	return c, sz, nil
+}
+
+// ChoppyReader is a ByteRuneReader that hands out at most Max octets per Read
+// (a network connection delivering in small pieces); ReadRune never splits a
+// code point.
+type ChoppyReader struct {
+	B   []byte
+	Pos int
+	Max int
+}
+
+func (r *ChoppyReader) Read(p []byte) (int, error) {
+	if r.Pos >= len(r.B) {
+		return 0, io.EOF
+	}
+	if len(p) > r.Max {
+		p = p[:r.Max]
+	}
+	n := copy(p, r.B[r.Pos:])
+	r.Pos += n
+	return n, nil
+}
+
+func (r *ChoppyReader) ReadRune() (rune, int, error) {
 	if r.Pos >= len(r.B) {
 		return 0, 0, io.EOF
 	}
@@ -276,4 +323,97 @@ func Stream(api string, vals []interface{}, gc bool) proj.M {
 	ev["used"], ev["rerr"], ev["carrier"], ev["dmsg"] = used, rerr, carrier, emsg
 	ev["T"] = P.Types
 	return ev
+}
+
+// StreamOn runs one stream on each of objs (pooled encoders, decoders or
+// serializers held at the same time), INTERLEAVED round by round, and
+// records each stream like Stream does.  vals[i] are the values of stream i.
+func StreamOn(kind string, objs []interface{}, vals [][]interface{}, typMap map[string]reflect.Type, nameMap map[string]string) []proj.M {
+	n := len(objs)
+	bufs := make([]*bytes.Buffer, n)
+	rds := make([]*CountingReader, n)
+	encs := make([]*hessian.Encoder, n)
+	decs := make([]*hessian.Decoder, n)
+	sers := make([]hessian.Serializer, n)
+	evs := make([]proj.M, n)
+	ends, werr, used, rerr, carrier := make([][]int, n), make([][]int, n), make([][]int, n), make([][]int, n), make([][]int, n)
+	rs := make([][]interface{}, n)
+	for i, o := range objs {
+		bufs[i], rds[i] = &bytes.Buffer{}, &CountingReader{}
+		switch kind {
+		case "enc":
+			encs[i] = o.(*hessian.Encoder)
+			decs[i] = hessian.NewDecoder(rds[i], typMap)
+			encs[i].Reset(bufs[i])
+		case "dec":
+			encs[i] = hessian.NewEncoder(bufs[i], nameMap)
+			decs[i] = o.(*hessian.Decoder)
+			decs[i].Reset(rds[i])
+		default:
+			sers[i] = o.(hessian.Serializer)
+		}
+		evs[i] = proj.M{"ev": "stream", "api": "pooled-" + kind, "xpanic": 0, "wpanic": 0}
+	}
+	rounds := 0
+	for _, v := range vals {
+		if len(v) > rounds {
+			rounds = len(v)
+		}
+	}
+	for k := 0; k < rounds; k++ {
+		for i := range objs {
+			if k >= len(vals[i]) {
+				continue
+			}
+			var err error
+			_, p := Call(func() {
+				switch {
+				case sers[i] == nil:
+					err = encs[i].WriteObject(vals[i][k])
+				case k == 0:
+					err = sers[i].WriteTo(bufs[i], vals[i][k])
+				default:
+					err = sers[i].Write(vals[i][k])
+				}
+			})
+			ends[i] = append(ends[i], bufs[i].Len())
+			werr[i] = append(werr[i], b2i(err != nil || p))
+			rds[i].B = append([]byte{}, bufs[i].Bytes()...)
+		}
+		for i := range objs {
+			if k >= len(vals[i]) {
+				continue
+			}
+			var r interface{}
+			var err error
+			_, p := Call(func() {
+				switch {
+				case sers[i] == nil:
+					r, err = decs[i].ReadObject()
+				case k == 0:
+					r, err = sers[i].ReadFrom(rds[i])
+				default:
+					r, err = sers[i].Read()
+				}
+			})
+			bad := p || err != nil
+			c := Carrier(r)
+			if bad || c {
+				r = nil
+			}
+			rs[i] = append(rs[i], r)
+			used[i] = append(used[i], rds[i].Pos)
+			rerr[i] = append(rerr[i], b2i(bad))
+			carrier[i] = append(carrier[i], b2i(c))
+		}
+	}
+	for i := range objs {
+		P := proj.New(nameMap)
+		evs[i]["v"] = P.ProjectMany(vals[i])
+		evs[i]["out"], evs[i]["ends"], evs[i]["werr"] = proj.Octets(bufs[i].Bytes()), ends[i], werr[i]
+		evs[i]["r"] = P.ProjectMany(rs[i])
+		evs[i]["used"], evs[i]["rerr"], evs[i]["carrier"], evs[i]["dmsg"] = used[i], rerr[i], carrier[i], ""
+		evs[i]["T"] = P.Types
+	}
+	return evs
 }
